@@ -1,15 +1,21 @@
 (* C14: alias = definition for ALL snippet tables, under the acyclicity that matters.
 
    [mentions cfg s] are the definitions a snippet text [s] refers to: every node (at any depth) of the
-   parsed definition whose name is a key of the table with a non-empty value.  [acyclic_from cfg d]
-   is the decidable predicate "following [mentions] from [d] never meets a definition that is already
-   on the current path" -- exactly the situation in which the cycle guard of resolve() (the `stack`)
-   would fire -- computed by the same depth-first walk the resolver does, with the same fuel bound
-   (the number of snippets; SnippetProofs.stack_bound).
+   parsed definition whose name is a key of the table with a non-empty value.  [reaches] is its
+   transitive closure.
 
-   Main lemma [walk_stack_indep]: where no guard can fire, the result of walk_resolve does not depend
-   on the guard stack.  Hence an alias node resolves to what its definition resolves to *in its place*
-   (with the empty stack and the full fuel), decorated as [alias_merge] says. *)
+   Decidable predicates, from strong to weak (each computed by the depth-first walk the resolver itself
+   does, with its guard stack as the path and its fuel bound |snippets|):
+     acyclic_table cfg     no snippet value reaches itself                     (acyclic_table_spec)
+     acyclic_from cfg d    no value on a cycle is reachable from d             (acyclic_from_spec)
+     self_free cfg d       the resolver, run on the definition d in place, never asks the guard about d
+                           itself; implied by  ~ reaches cfg d d  (self_free_of_not_reaching): cycles
+                           elsewhere -- `a` = `a[href]` below a definition that mentions `a` -- are cut
+                           at the same point on both sides and do no harm.
+
+   Main lemmas: [walk_stack_drop] (a guard-stack entry the walk never asks about can be dropped) and
+   [walk_stack_indep] (where no guard can fire the stack is irrelevant).  Hence an alias node resolves to
+   what its definition resolves to *in its place* (empty stack, full fuel), decorated as [alias_merge] says. *)
 From Coq Require Import List NArith ZArith Bool Lia.
 From Emmet Require Import lib.Base model.MarkupTokenizer model.MarkupParser model.MarkupConvert
      model.MarkupResolve proofs.AttrProofs proofs.SnippetProofs.
@@ -89,16 +95,15 @@ Proof.
     intros y [Hy|Hy]; [left; exact Hy|right; apply INC; exact Hy].
 Qed.
 
-(* ------------------------------------------------------------------ one level: where the guard is silent
-   on both stacks and the nested calls agree, the level agrees *)
+(* ------------------------------------------------------------------ one level: where the guard answers
+   the same on both stacks and the nested calls agree, the level agrees *)
 Section Indep.
   Variable rec : list str -> list anode -> res (list anode).
   Variable cfg : mconfig.
   Variable st1 st2 : list str.
   Variable ok : str -> bool.
-  Hypothesis Hst1 : forall s, ok s = true -> mem_str s st1 = false.
-  Hypothesis Hst2 : forall s, ok s = true -> mem_str s st2 = false.
-  Hypothesis Hrec : forall s parsed, ok s = true -> parse_def cfg s = Ok parsed ->
+  Hypothesis Hmem : forall s, ok s = true -> mem_str s st1 = mem_str s st2.
+  Hypothesis Hrec : forall s parsed, ok s = true -> mem_str s st2 = false -> parse_def cfg s = Ok parsed ->
     rec (s :: st1) parsed = rec (s :: st2) parsed.
 
   Lemma wkids_indep : forall ch,
@@ -121,9 +126,9 @@ Section Indep.
     rewrite (wkids_indep ch F Hk).
     destruct (def_of cfg nm) as [s|]; [|reflexivity].
     simpl in Hd. rewrite andb_true_r in Hd.
-    rewrite (Hst1 s Hd), (Hst2 s Hd).
+    rewrite (Hmem s Hd). destruct (mem_str s st2) eqn:M; [reflexivity|].
     fold (parse_def cfg s). destruct (parse_def cfg s) as [parsed| | |] eqn:EP; try reflexivity.
-    simpl. rewrite (Hrec s parsed Hd EP). reflexivity.
+    simpl. rewrite (Hrec s parsed Hd M EP). reflexivity.
   Qed.
 
   Lemma wlist_indep : forall l, forallb ok (forest_defs cfg l) = true -> wlist rec cfg st1 l = wlist rec cfg st2 l.
@@ -135,6 +140,13 @@ Section Indep.
 End Indep.
 
 (* ------------------------------------------------------------------ the main lemma *)
+Lemma safe_off_path : forall f cfg path s st, safe f cfg path s = true -> incl st path -> mem_str s st = false.
+Proof.
+  intros f cfg path s st Hs I. destruct f as [|f']; [discriminate|]. rewrite safe_S in Hs.
+  apply andb_true_iff in Hs. destruct Hs as [Hs _]. apply negb_true_iff in Hs.
+  apply mem_str_not_In. apply mem_str_not_In in Hs. intro HI. apply Hs, I, HI.
+Qed.
+
 Theorem walk_stack_indep : forall cfg fuel f path st1 st2 l,
   incl st1 path -> incl st2 path ->
   forallb (safe f cfg path) (forest_defs cfg l) = true ->
@@ -142,14 +154,9 @@ Theorem walk_stack_indep : forall cfg fuel f path st1 st2 l,
 Proof.
   intros cfg. induction fuel as [|fuel IH]; intros f path st1 st2 l I1 I2 H; [reflexivity|].
   rewrite !walk_resolve_unfold.
-  apply (wlist_indep (walk_resolve fuel cfg) cfg st1 st2 (safe f cfg path)); [| | |exact H].
-  - intros s Hs. destruct f as [|f']; [discriminate|]. rewrite safe_S in Hs.
-    apply andb_true_iff in Hs. destruct Hs as [Hs _]. apply negb_true_iff in Hs.
-    apply mem_str_not_In. apply mem_str_not_In in Hs. intro HI. apply Hs, I1, HI.
-  - intros s Hs. destruct f as [|f']; [discriminate|]. rewrite safe_S in Hs.
-    apply andb_true_iff in Hs. destruct Hs as [Hs _]. apply negb_true_iff in Hs.
-    apply mem_str_not_In. apply mem_str_not_In in Hs. intro HI. apply Hs, I2, HI.
-  - intros s parsed Hs EP. destruct f as [|f']; [discriminate|]. rewrite safe_S in Hs.
+  apply (wlist_indep (walk_resolve fuel cfg) cfg st1 st2 (safe f cfg path)); [| |exact H].
+  - intros s Hs. rewrite (safe_off_path f cfg path s st1 Hs I1), (safe_off_path f cfg path s st2 Hs I2). reflexivity.
+  - intros s parsed Hs _ EP. destruct f as [|f']; [discriminate|]. rewrite safe_S in Hs.
     apply andb_true_iff in Hs. destruct Hs as [_ Hs]. unfold mentions in Hs. rewrite EP in Hs.
     apply (IH f' (s :: path)); [| |exact Hs].
     + intros y [Hy|Hy]; [left; exact Hy|right; apply I1; exact Hy].
@@ -164,6 +171,49 @@ Corollary walk_stack_nil : forall cfg fuel f path st l,
   walk_resolve fuel cfg st l = walk_resolve fuel cfg [] l.
 Proof. intros. eapply walk_stack_indep; [eassumption|intros x []|eassumption]. Qed.
 
+(* ------------------------------------------------------------------ the weakest hypothesis: the walk never
+   asks the guard about [d].  [nohit f cfg d path s]: the resolver's walk from the definition [s] with the
+   guard stack [path] never looks up [d]; a definition already on the path is not entered (the guard
+   fires there, on both sides alike) *)
+Fixpoint nohit (f : nat) (cfg : mconfig) (d : str) (path : list str) (s : str) : bool :=
+  negb (str_eqb s d) &&
+  (mem_str s path ||
+   match f with
+   | O => false
+   | S f' => forallb (nohit f' cfg d (s :: path)) (mentions cfg s)
+   end).
+
+(* [d] resolved in place of its alias never meets [d] itself *)
+Definition self_free (cfg : mconfig) (d : str) : bool :=
+  forallb (nohit (length (mc_snippets cfg)) cfg d []) (mentions cfg d).
+
+Lemma nohit_eq : forall f cfg d path s,
+  nohit f cfg d path s =
+  negb (str_eqb s d) &&
+  (mem_str s path || match f with O => false | S f' => forallb (nohit f' cfg d (s :: path)) (mentions cfg s) end).
+Proof. intros. destruct f; reflexivity. Qed.
+
+Lemma mem_str_snoc : forall s st d, str_eqb s d = false -> mem_str s (st ++ [d]) = mem_str s st.
+Proof.
+  intros s st d H. unfold mem_str. rewrite existsb_app. simpl. rewrite H. rewrite !orb_false_r. reflexivity.
+Qed.
+
+(* a guard-stack entry the walk never asks about can be dropped *)
+Theorem walk_stack_drop : forall cfg d fuel f st l,
+  forallb (nohit f cfg d st) (forest_defs cfg l) = true ->
+  walk_resolve fuel cfg (st ++ [d]) l = walk_resolve fuel cfg st l.
+Proof.
+  intros cfg d. induction fuel as [|fuel IH]; intros f st l H; [reflexivity|].
+  rewrite !walk_resolve_unfold.
+  apply (wlist_indep (walk_resolve fuel cfg) cfg (st ++ [d]) st (nohit f cfg d st)); [| |exact H].
+  - intros s Hs. rewrite nohit_eq in Hs. apply andb_true_iff in Hs. destruct Hs as [Hs _].
+    apply negb_true_iff in Hs. apply mem_str_snoc. exact Hs.
+  - intros s parsed Hs M EP. rewrite nohit_eq in Hs. apply andb_true_iff in Hs. destruct Hs as [_ Hs].
+    rewrite M in Hs. cbn [orb] in Hs. destruct f as [|f']; [discriminate|].
+    unfold mentions in Hs. rewrite EP in Hs.
+    change (s :: st ++ [d]) with ((s :: st) ++ [d]). apply (IH f' (s :: st) parsed Hs).
+Qed.
+
 (* ------------------------------------------------------------------ alias = definition in its place, trees *)
 Definition full_fuel (cfg : mconfig) : nat := S (length (mc_snippets cfg)).
 
@@ -177,10 +227,10 @@ Proof. intro. unfold snippet_values. apply map_length. Qed.
 (* resolving the parsed definition below the alias (guard stack [d], one unit of fuel spent) is
    resolving it in place *)
 Lemma nested_eq_in_place : forall cfg d parsed,
-  In d (snippet_values cfg) -> acyclic_from cfg d = true -> parse_def cfg d = Ok parsed ->
+  In d (snippet_values cfg) -> self_free cfg d = true -> parse_def cfg d = Ok parsed ->
   walk_resolve (length (mc_snippets cfg)) cfg [d] parsed = walk_resolve (full_fuel cfg) cfg [] parsed.
 Proof.
-  intros cfg d parsed Hin Hac EP. unfold acyclic_from in Hac. unfold full_fuel.
+  intros cfg d parsed Hin Hsf EP. unfold self_free, mentions in Hsf. rewrite EP in Hsf. unfold full_fuel.
   set (N := length (mc_snippets cfg)) in *.
   assert (NO : walk_resolve N cfg [d] parsed <> OutOfFuel).
   { apply walk_resolve_no_oof.
@@ -188,9 +238,7 @@ Proof.
     - intros x [Hx|[]]. subst. exact Hin.
     - rewrite length_values. fold N. simpl. lia. }
   rewrite <- (walk_resolve_mono cfg N [d] parsed NO (S N)) by lia.
-  destruct N as [|N0]; [discriminate|]. rewrite safe_S in Hac.
-  apply andb_true_iff in Hac. destruct Hac as [_ Hac]. unfold mentions in Hac. rewrite EP in Hac.
-  apply (walk_stack_nil cfg (S (S N0)) N0 [d] [d] parsed); [apply incl_refl|exact Hac].
+  exact (walk_stack_drop cfg d (S N) N [] parsed Hsf).
 Qed.
 
 (* THE tree theorem: an alias node, whatever is written on it, at top level of any abbreviation:
@@ -200,7 +248,7 @@ Qed.
    deepest last node (find_deepest: the last-child chain of the last top-level node); an empty
    definition forest drops the alias together with its children. *)
 Theorem alias_eq_definition_decorated : forall cfg k d v rp at_ ch sc,
-  def_of cfg (Some k) = Some d -> acyclic_from cfg d = true ->
+  def_of cfg (Some k) = Some d -> self_free cfg d = true ->
   walk_resolve (full_fuel cfg) cfg [] [ANode (Some k) v rp at_ ch sc] =
   let* resolved := resolve_def cfg d in
   let tops := map (merge_into (mc_reverse_attrs cfg) (ANode (Some k) v rp at_ ch sc)) resolved in
@@ -218,7 +266,7 @@ Qed.
 
 (* bare alias *)
 Theorem alias_eq_definition_tree : forall cfg k d,
-  def_of cfg (Some k) = Some d -> acyclic_from cfg d = true ->
+  def_of cfg (Some k) = Some d -> self_free cfg d = true ->
   walk_resolve (full_fuel cfg) cfg [] [ANode (Some k) None None None [] false] = resolve_def cfg d.
 Proof.
   intros cfg k d Hd Hac. unfold full_fuel at 1.
@@ -262,7 +310,7 @@ Proof. reflexivity. Qed.
 (* `k[attrs]`, `k.c`, `k#i`: the attributes written on the alias are appended to the attribute list of
    EVERY top-level node of the definition; under reverseAttributes they are put in front *)
 Theorem alias_attributes : forall cfg k d a at_,
-  def_of cfg (Some k) = Some d -> acyclic_from cfg d = true ->
+  def_of cfg (Some k) = Some d -> self_free cfg d = true ->
   walk_resolve (full_fuel cfg) cfg [] [ANode (Some k) None None (Some (a :: at_)) [] false] =
   let* resolved := resolve_def cfg d in Ok (map (add_attrs (mc_reverse_attrs cfg) (a :: at_)) resolved).
 Proof.
@@ -275,7 +323,7 @@ Qed.
 (* `k*N` (each copy the converter makes of the alias carries the repeater): every top-level node of the
    definition carries the alias' repeater *)
 Theorem alias_repeat : forall cfg k d r,
-  def_of cfg (Some k) = Some d -> acyclic_from cfg d = true ->
+  def_of cfg (Some k) = Some d -> self_free cfg d = true ->
   walk_resolve (full_fuel cfg) cfg [] [ANode (Some k) None (Some r) None [] false] =
   let* resolved := resolve_def cfg d in Ok (map (set_repeat r) resolved).
 Proof.
@@ -287,7 +335,7 @@ Qed.
 
 (* `k{text}`: the text replaces the value of every top-level node *)
 Theorem alias_text : forall cfg k d x,
-  def_of cfg (Some k) = Some d -> acyclic_from cfg d = true ->
+  def_of cfg (Some k) = Some d -> self_free cfg d = true ->
   walk_resolve (full_fuel cfg) cfg [] [ANode (Some k) (Some x) None None [] false] =
   let* resolved := resolve_def cfg d in Ok (map (set_value x) resolved).
 Proof.
@@ -299,7 +347,7 @@ Qed.
 
 (* `k/`: every top-level node is self-closing *)
 Theorem alias_self_closing : forall cfg k d,
-  def_of cfg (Some k) = Some d -> acyclic_from cfg d = true ->
+  def_of cfg (Some k) = Some d -> self_free cfg d = true ->
   walk_resolve (full_fuel cfg) cfg [] [ANode (Some k) None None None [] true] =
   let* resolved := resolve_def cfg d in Ok (map set_self resolved).
 Proof.
@@ -313,7 +361,7 @@ Qed.
    the node at the end of the last-child chain of its LAST top-level node (find_deepest).  Exact side
    condition of the code: a definition that resolves to an empty forest drops the children. *)
 Theorem alias_children : forall cfg k d ch,
-  def_of cfg (Some k) = Some d -> acyclic_from cfg d = true ->
+  def_of cfg (Some k) = Some d -> self_free cfg d = true ->
   walk_resolve (full_fuel cfg) cfg [] [ANode (Some k) None None None ch false] =
   let* resolved := resolve_def cfg d in
   match resolved with
@@ -466,3 +514,167 @@ Proof.
     + subst. exact (H d Hd).
     + exact (H t (reaches_value cfg d t Ht)).
 Qed.
+
+(* ------------------------------------------------------------------ the three hypotheses, strong to weak *)
+Lemma str_neq_eqb : forall a b : str, a <> b -> str_eqb a b = false.
+Proof. intros a b H. destruct (str_eqb a b) eqn:E; [|reflexivity]. apply a_str_eqb_eq in E. contradiction. Qed.
+
+(* a walk that cannot reach [d] never asks about it (pigeonhole: the fuel |snippets| is enough) *)
+Lemma nohit_complete : forall f cfg d path s,
+  NoDup path -> incl path (snippet_values cfg) -> In s (snippet_values cfg) ->
+  length (snippet_values cfg) <= f + length path ->
+  s <> d -> ~ reaches cfg s d ->
+  nohit f cfg d path s = true.
+Proof.
+  induction f as [|f IH]; intros cfg d path s ND INC Hs LEN Hne Hnr; rewrite nohit_eq;
+    rewrite (str_neq_eqb s d Hne); cbn [negb andb]; destruct (mem_str s path) eqn:M; try reflexivity; cbn [orb].
+  - exfalso. apply mem_str_not_In in M.
+    assert (ND' : NoDup (s :: path)) by (constructor; assumption).
+    assert (INC' : incl (s :: path) (snippet_values cfg)) by (intros y [Hy|Hy]; [subst; exact Hs|apply INC; exact Hy]).
+    pose proof (NoDup_incl_length ND' INC') as L. simpl in L, LEN. lia.
+  - apply mem_str_not_In in M. apply forallb_forall. intros t Ht. apply IH.
+    + constructor; assumption.
+    + intros y [Hy|Hy]; [subst; exact Hs|apply INC; exact Hy].
+    + exact (mentions_value cfg s t Ht).
+    + simpl. lia.
+    + intro E. subst t. apply Hnr. apply reach_step. exact Ht.
+    + intro R. apply Hnr. eapply reach_more; [exact Ht|exact R].
+Qed.
+
+(* "d does not reach itself" is enough *)
+Theorem self_free_of_not_reaching : forall cfg d, ~ reaches cfg d d -> self_free cfg d = true.
+Proof.
+  intros cfg d H. unfold self_free. apply forallb_forall. intros t Ht. apply nohit_complete.
+  - constructor.
+  - intros y [].
+  - exact (mentions_value cfg d t Ht).
+  - rewrite length_values. simpl. lia.
+  - intro E. subst t. apply H. apply reach_step. exact Ht.
+  - intro R. apply H. eapply reach_more; [exact Ht|exact R].
+Qed.
+
+Theorem self_free_of_acyclic_from : forall cfg d, acyclic_from cfg d = true -> self_free cfg d = true.
+Proof. intros cfg d H. apply self_free_of_not_reaching. exact (safe_no_cycle _ cfg [] d H). Qed.
+
+Theorem self_free_of_acyclic_table : forall cfg d,
+  In d (snippet_values cfg) -> acyclic_table cfg = true -> self_free cfg d = true.
+Proof.
+  intros cfg d Hd H. apply self_free_of_acyclic_from. unfold acyclic_table in H.
+  rewrite forallb_forall in H. exact (H d Hd).
+Qed.
+
+(* ------------------------------------------------------------------ exactness: self_free IS "d does not
+   reach itself" (the walk prunes only at definitions on its own path, so it tries every simple path;
+   a shortest way from d back to d is simple) *)
+Fixpoint chain (cfg : mconfig) (s : str) (l : list str) (t : str) : Prop :=
+  match l with
+  | [] => In t (mentions cfg s)
+  | u :: l' => In u (mentions cfg s) /\ chain cfg u l' t
+  end.
+
+Lemma reaches_chain : forall cfg s t, reaches cfg s t -> exists l, chain cfg s l t.
+Proof.
+  intros cfg s t H. induction H as [s t H|s u t H _ [l IH]].
+  - exists []. exact H.
+  - exists (u :: l). split; assumption.
+Qed.
+
+Lemma chain_split : forall cfg l1 s u l2 t, chain cfg s (l1 ++ u :: l2) t -> chain cfg s l1 u /\ chain cfg u l2 t.
+Proof.
+  intros cfg. induction l1 as [|x l1 IH]; intros s u l2 t H.
+  - cbn in H. destruct H as [H1 H2]. split; [exact H1|exact H2].
+  - cbn in H. destruct H as [H1 H2]. destruct (IH x u l2 t H2) as [A B]. split; [split; assumption|exact B].
+Qed.
+
+Lemma chain_join : forall cfg l1 s u l2 t, chain cfg s l1 u -> chain cfg u l2 t -> chain cfg s (l1 ++ u :: l2) t.
+Proof.
+  intros cfg. induction l1 as [|x l1 IH]; intros s u l2 t A B.
+  - cbn in A. cbn. split; assumption.
+  - cbn in A. destruct A as [A1 A2]. cbn. split; [exact A1|exact (IH x u l2 t A2 B)].
+Qed.
+
+Lemma chain_values : forall cfg l s t, chain cfg s l t -> incl l (snippet_values cfg).
+Proof.
+  intros cfg. induction l as [|u l IH]; intros s t H x Hx; [contradiction|].
+  cbn in H. destruct H as [H1 H2]. destruct Hx as [Hx|Hx]; [subst; exact (mentions_value cfg s x H1)|exact (IH u t H2 x Hx)].
+Qed.
+
+Definition str_dec : forall a b : str, {a = b} + {a <> b} := list_eq_dec N.eq_dec.
+
+Lemma dup_or_nodup : forall l : list str,
+  NoDup l \/ exists u l1 l2 l3, l = l1 ++ u :: l2 ++ u :: l3.
+Proof.
+  induction l as [|x l IH]; [left; constructor|].
+  destruct (in_dec str_dec x l) as [Hin|Hn].
+  - right. apply in_split in Hin. destruct Hin as [a [b E]]. exists x, [], a, b. cbn. rewrite E. reflexivity.
+  - destruct IH as [ND|[u [l1 [l2 [l3 E]]]]].
+    + left. constructor; assumption.
+    + right. exists u, (x :: l1), l2, l3. cbn. rewrite E. reflexivity.
+Qed.
+
+(* loop removal *)
+Lemma simple_chain : forall cfg n l s t, length l <= n -> chain cfg s l t ->
+  exists l', chain cfg s l' t /\ NoDup l' /\ ~ In t l'.
+Proof.
+  intros cfg. induction n as [|n IH]; intros l s t LEN H.
+  - destruct l; [|simpl in LEN; lia]. exists []. split; [exact H|]. split; [constructor|intros []].
+  - destruct (in_dec str_dec t l) as [Hin|Hn].
+    + apply in_split in Hin. destruct Hin as [a [b E]]. subst l. destruct (chain_split cfg a s t b t H) as [A _].
+      apply (IH a s t); [|exact A]. rewrite app_length in LEN. simpl in LEN. lia.
+    + destruct (dup_or_nodup l) as [ND|[u [l1 [l2 [l3 E]]]]].
+      * exists l. split; [exact H|]. split; assumption.
+      * subst l. destruct (chain_split cfg l1 s u _ t H) as [A B].
+        destruct (chain_split cfg l2 u u l3 t B) as [_ C].
+        apply (IH (l1 ++ u :: l3) s t); [|exact (chain_join cfg l1 s u l3 t A C)].
+        rewrite !app_length in *. simpl in *. rewrite app_length in LEN. simpl in LEN. lia.
+Qed.
+
+Lemma forallb_false_of {A} : forall (p : A -> bool) l x, In x l -> p x = false -> forallb p l = false.
+Proof.
+  intros p l x Hin Hx. destruct (forallb p l) eqn:E; [|reflexivity].
+  rewrite forallb_forall in E. rewrite (E x Hin) in Hx. discriminate.
+Qed.
+
+Lemma nohit_self : forall f cfg d path, nohit f cfg d path d = false.
+Proof. intros. rewrite nohit_eq, a_str_eqb_refl. reflexivity. Qed.
+
+(* along a simple chain to d that avoids the path, the walk does ask about d *)
+Lemma nohit_chain_false : forall cfg d l u path f,
+  chain cfg u l d -> NoDup (u :: l) -> ~ In d (u :: l) ->
+  (forall x, In x (u :: l) -> ~ In x path) -> length l < f ->
+  nohit f cfg d path u = false.
+Proof.
+  intros cfg d. induction l as [|u' l IH]; intros u path f H ND Hd Hp LEN; rewrite nohit_eq.
+  - assert (Hne : u <> d) by (intro E; apply Hd; left; exact E).
+    rewrite (str_neq_eqb u d Hne). cbn [negb andb].
+    assert (M : mem_str u path = false) by (apply mem_str_not_In; apply Hp; left; reflexivity).
+    rewrite M. cbn [orb]. destruct f as [|f']; [reflexivity|].
+    cbn in H. apply (forallb_false_of _ _ d H). apply nohit_self.
+  - assert (Hne : u <> d) by (intro E; apply Hd; left; exact E).
+    rewrite (str_neq_eqb u d Hne). cbn [negb andb].
+    assert (M : mem_str u path = false) by (apply mem_str_not_In; apply Hp; left; reflexivity).
+    rewrite M. cbn [orb]. destruct f as [|f']; [reflexivity|].
+    cbn in H. destruct H as [H1 H2]. apply (forallb_false_of _ _ u' H1).
+    inversion ND as [|? ? Hu ND']; subst. apply IH; try assumption.
+    + intro HI. apply Hd. right. exact HI.
+    + intros x Hx [E|HI].
+      * subst x. apply Hu. exact Hx.
+      * apply (Hp x); [right; exact Hx|exact HI].
+    + simpl in LEN. lia.
+Qed.
+
+Theorem self_free_not_reaching : forall cfg d, self_free cfg d = true -> ~ reaches cfg d d.
+Proof.
+  intros cfg d Hsf Hr. destruct (reaches_chain cfg d d Hr) as [l0 H0].
+  destruct (simple_chain cfg (length l0) l0 d d (le_n _) H0) as [l [H [ND Hd]]].
+  unfold self_free in Hsf. rewrite forallb_forall in Hsf.
+  destruct l as [|u l].
+  - cbn in H. specialize (Hsf d H). rewrite nohit_self in Hsf. discriminate.
+  - cbn in H. destruct H as [H1 H2]. specialize (Hsf u H1).
+    rewrite (nohit_chain_false cfg d l u [] _ H2 ND Hd) in Hsf; [discriminate|intros x _ []|].
+    pose proof (NoDup_incl_length ND (chain_values cfg (u :: l) d d (conj H1 H2))) as L.
+    rewrite length_values in L. simpl in L. lia.
+Qed.
+
+Theorem self_free_spec : forall cfg d, self_free cfg d = true <-> ~ reaches cfg d d.
+Proof. intros. split; [apply self_free_not_reaching|apply self_free_of_not_reaching]. Qed.
